@@ -53,6 +53,9 @@ type sEvent struct {
 func (e sEvent) String() string {
 	switch e.Kind {
 	case "f4", "f6":
+		if e.Kind == "f4" && e.MAC2 == 1 {
+			return fmt.Sprintf("f4(%s,%s->multicast group)", sMACName[e.MAC], sIPName[e.IP])
+		}
 		return fmt.Sprintf("%s(%s,%s)", e.Kind, sMACName[e.MAC], sIPName[e.IP])
 	case "arp":
 		return fmt.Sprintf("arp(eth=%s,sha=%s,spa=%s)", sMACName[e.MAC], sMACName[e.MAC2], sIPName[e.IP])
@@ -92,7 +95,9 @@ func sessAlphabet(offline, purge time.Duration) []sEvent {
 		sEvent{Kind: "arp", MAC: mOwn, MAC2: mOwn, IP: iA},
 		// a forged ARP packet of our own (ethernet source = this host, ARP sender = a client) and the converse
 		sEvent{Kind: "arp", MAC: mOwn, MAC2: mC1, IP: iA}, sEvent{Kind: "arp", MAC: mC1, MAC2: mOwn, IP: iB},
+		sEvent{Kind: "f4", MAC: mC1, IP: iA, MAC2: 1}, sEvent{Kind: "f4", MAC: mC1, IP: iB, MAC2: 1}, // IPv4 frames to a multicast group
 		sEvent{Kind: "dhcpf", MAC: mC1},
+		sEvent{Kind: "dhcpupd", MAC: mC1, IP: iA, Name: "n2"}, // a DHCP message that renames the station
 		sEvent{Kind: "dhcpupd", MAC: mC1, IP: iA}, sEvent{Kind: "dhcpupd", MAC: mC1, IP: iA, Name: "n1"}, sEvent{Kind: "dhcpupd", MAC: mC1, IP: iB, Name: "n1"}, sEvent{Kind: "dhcpupd", MAC: mC2, IP: iA}, sEvent{Kind: "dhcpupd", MAC: mC1, IP: iZero},
 		sEvent{Kind: "setoffer", MAC: mC1, IP: iA}, sEvent{Kind: "setoffer", MAC: mC1, IP: iB},
 		sEvent{Kind: "capture", MAC: mC1}, sEvent{Kind: "release", MAC: mC1}, sEvent{Kind: "capture", MAC: mRouter},
@@ -255,6 +260,9 @@ type sessResult struct {
 func (e sEvent) frame() []byte {
 	switch e.Kind {
 	case "f4":
+		if e.MAC2 == 1 { // sent to a multicast group (mDNS): the station is seen all the same
+			return refnet.Eth(env.McastMAC, sMACs[e.MAC], 0x0800, refnet.IP4(sIPs[e.IP], netip.MustParseAddr("224.0.0.251"), 17, refnet.UDP(40000, 40001, []byte("payload-4")), refnet.IP4Opt{}))
+		}
 		return refnet.Eth(env.HostMAC, sMACs[e.MAC], 0x0800, refnet.IP4(sIPs[e.IP], sIPs[iHost], 17, refnet.UDP(40000, 40001, []byte("payload-4")), refnet.IP4Opt{}))
 	case "f6":
 		return refnet.Eth(env.HostMAC, sMACs[e.MAC], 0x86dd, refnet.IP6(sIPs[e.IP], env.HostLLA, 17, 64, refnet.UDP(40000, 40001, []byte("payload-6")), -1))
@@ -444,9 +452,10 @@ func runSession(alpha []sEvent, hist []int, o sessOpts) *sessResult {
 		model := newSessModel(vsched.NowNanos(), o.offline, o.purge)
 		lastNote := map[netip.Addr]string{} // content of the last notification per address (prefixed by the MAC)
 		lastOwn := map[netip.Addr]string{}  // the address' own learned names when it was last notified
-		// the session's own entry and the router entry are seeded as online by NewSession (never "first seen")
+		// the session's own entry is seeded as online by NewSession and never "first seen" (frames from our own MAC are
+		// not tracked); the router entry is seeded too, but the router IS first seen when its first frame arrives: that
+		// frame must produce the online notification (with the router flag) like for any other address
 		lastNote[sIPs[iHost]] = "own online=true"
-		lastNote[sIPs[iRtr]] = "router online=true"
 		shared := make([]byte, 2048)
 		failed := false
 		for si, ei := range hist {
